@@ -1,5 +1,6 @@
 """Writing IR-code into a textual format."""
 
+from itertools import chain
 from .verify import verify_module
 from .. import ir
 
@@ -19,6 +20,38 @@ def print_module(module, file=None, verify=True):
     Writer(file=file).write(module, verify=verify)
 
 
+def make_names_unique(module):
+    """Make sure that a name refers to a single value.
+
+    In the textual and in the json form of a module, values are
+    referred to by name. So within a function, the names of the
+    parameters and of the instruction results must differ from each
+    other and from the names of the global values of the module. A
+    parameter or instruction result which breaks this rule is renamed,
+    say from 'tmp' into 'tmp_0'. Global values keep their name.
+    """
+    global_values = chain(module.externals, module.variables, module.functions)
+    global_names = {value.name for value in global_values}
+    for function in module.functions:
+        values = list(function.arguments)
+        for instruction in function.get_instructions():
+            if isinstance(instruction, ir.Value):
+                values.append(instruction)
+
+        used_names = global_names.union(value.name for value in values)
+        used_names.update(function.defined_names)
+        seen_names = set(global_names)
+        for value in values:
+            if value.name in seen_names:
+                name = value.name
+                while value.name in used_names:
+                    value.name = f"{name}_{function.unique_counter}"
+                    function.unique_counter += 1
+                used_names.add(value.name)
+                function.defined_names.add(value.name)
+            seen_names.add(value.name)
+
+
 class Writer:
     """Write ir-code to file"""
 
@@ -35,6 +68,7 @@ class Writer:
         assert isinstance(module, ir.Module)
         if verify:
             verify_module(module)
+        make_names_unique(module)
         self._print(0, f"{module};")
 
         for external in module.externals:
